@@ -41,7 +41,9 @@ pub fn solve<'a>(sn: Rc<RefCell<SolutionNode<'a>>>) -> String {
     let solution = next_solution(Rc::clone(&sn));
     cancel_timer(timer);
 
-    if query_stopped() {
+    let stopped = query_stopped();
+    end_query();  // The flag has been read. It must not affect later queries.
+    if stopped {
         return format!("Query timed out after {} \
                         milliseconds.", S_TIMEOUT);
     }
@@ -103,7 +105,9 @@ pub fn solve_all<'a>(sn: Rc<RefCell<SolutionNode<'a>>>) -> Vec<String> {
     } // loop
 
     cancel_timer(timer);
-    if query_stopped() {
+    let stopped = query_stopped();
+    end_query();  // The flag has been read. It must not affect later queries.
+    if stopped {
         let s = format!("Query timed out after {} milliseconds.", S_TIMEOUT);
         results.push(s);
     }
